@@ -259,9 +259,56 @@ def check(case):
             ok3, res3 = call(check_block_signatures, nodes, sigs, blk)
             if not ok3:
                 f = Fail('rejected/valid-supermajority/second-call', f'{res3!r}: accepted once, rejected when presented again: {summ}')
+    if f is None and nodes:
+        # the same set with its weights held in other exact number types (an int subclass; fractions - all weights divided by 7, or
+        # multiplied by 2/3): the condition "more than two thirds of the total" does not depend on the unit, so the verdict is
+        # the same. (No floats / Decimals: their arithmetic is not exact.)
+        from fractions import Fraction
+
+        class _W(int):
+            pass
+        saved = [n_.weight for n_ in nodes]
+        for wname, conv in (('int-subclass', _W), ('fractions/7', lambda w: Fraction(w, 7)), ('fractions*2/3', lambda w: Fraction(2 * w, 3))):
+            for n_, w in zip(nodes, saved):
+                n_.weight = conv(w)
+            okw, resw = call(check_block_signatures, nodes, sigs, blk)
+            if okw != ok:
+                f = Fail(f'{"accepted" if okw else "rejected"}/verdict-depends-on-the-number-type-of-the-weights/{wname}',
+                         f'{"accepted" if okw else repr(resw)} with weights as {wname}, the opposite with plain ints: {summ}')
+                break
+        for n_, w in zip(nodes, saved):
+            n_.weight = w
     if f is not None and f.signature in _IGNORE:
         return None
     return f
+
+
+def check_hammer(case):
+    """several signature sets (and single signatures) prepared one after the other, then verified by threads at the same time:
+    the verdict on each is the one it gets alone"""
+    from harness.core import hammer
+    from pytoniq_core.proof.check_proof import check_block_signatures
+    from pytoniq_core.crypto.signature import verify_sign
+    calls = []
+    for ci, c in enumerate(case['cases']):
+        nodes, sigs, blk = materialise(c)
+        expect = analyse(c)[0]
+
+        def verdict(nodes=nodes, sigs=sigs, blk=blk):
+            check_block_signatures(nodes, sigs, blk)
+            return 'accepted'
+        if any(e.get('sp', 0) for e in c['sigs']):
+            continue
+        calls.append((f'check_block_signatures/{"valid-supermajority" if expect else "must-be-rejected"}', verdict))
+        payload = MAGIC_BLOCKID + blk.root_hash + blk.file_hash
+        by_id = {node_id(n_.public_key.pubkey).hex(): n_.public_key.pubkey for n_ in nodes}
+        for e in sigs[:3]:
+            pk = by_id.get(e['node_id_short'])
+            if pk is not None:
+                calls.append(('verify_sign', lambda pk=pk, s=e['signature']: bool(verify_sign(pk, payload, s))))
+    if len(calls) < 2:
+        return None
+    return hammer(calls, threads=4, rounds=12)
 
 
 # --------------------------------------------------------------------------------------------------
@@ -341,10 +388,15 @@ def _edit_in_place(prev, new):
             continue
         o = prev[i]
         if o.public_key.pubkey != nn.public_key.pubkey:
-            if i % 2:
+            if i % 3 == 1:
                 o.public_key = nn.public_key
-            else:
+            elif i % 3 == 2:
                 o.public_key.pubkey = nn.public_key.pubkey
+            else:
+                # the old key is dropped first and the new one is a bytes object created only now: it usually gets the memory (and
+                # so the id()) the old key object had - whatever was remembered about "that object" is about another key now
+                o.public_key.pubkey = None
+                o.public_key.pubkey = bytes(bytearray(nn.public_key.pubkey))
         if o.weight != nn.weight:
             o.weight = nn.weight
         o.type_, o.adnl_addr = nn.type_, nn.adnl_addr
@@ -952,3 +1004,7 @@ SUBCHECKS = [
 # the same generated cases, several at a time, checked by threads that run at the same time (core.run_overlapping): per-call state
 # kept in a place two calls share shows only there
 SUBCHECKS.append(__import__('harness.core', fromlist=['overlapped']).overlapped(next(s for s in SUBCHECKS if s.name == 'random'), k=4, n=(60, 3000)))
+SUBCHECKS.append(Sub('two-threads-verdicts', check_hammer, strategy=lambda tier: st.lists(_case(), min_size=3, max_size=4).map(lambda cs: {'cases': cs}),
+                     classify=lambda case: ['sets=%d' % len(case['cases'])], nontrivial=lambda case: True, n=(60, 2000), shards=(8, 16),
+                     note='3-4 generated signature sets and their first signatures, prepared one after the other, then verified by 4 threads '
+                          'in tight loops at the same time (core.hammer); oracle = the verdict each call gets alone'))
